@@ -601,7 +601,8 @@ def _case_b12(spec):
 ROUND_B = 5e-4                     # the right-hand side is rounded to 3 decimals: |db| <= 5e-4 per entry
 SAFETY = 3.0                       # safety factor on the first-order bound
 TOL_CAP = 5e-2                     # cases whose tolerance would exceed this are rejected (ill-conditioned system)
-GATE_DA = 1e-3                     # largest accepted difference between forsys' tangents and the analytic ones
+GATE_DA = 5e-3                     # largest accepted difference between forsys' tangents and the analytic ones
+K_TANGENT = "B03:tangent-differs-outside-sign-forcing-class"
 
 
 def canon(path):
@@ -849,6 +850,18 @@ def _case_b03(spec):
                 Af_cache = Af
                 dA = float(np.max(np.abs(Af - A)))
                 info["max_tangent_error"] = dA
+                if dA > GATE_DA and not kf_ends:
+                    # premise of the comparison broken by something else than the known defect: report and stop
+                    r_, c_ = np.unravel_index(int(np.argmax(np.abs(Af - A))), A.shape)
+                    j_ = used[r_ // 2]
+                    it_ = internal[c_]
+                    fails.append(_fail(spec, "forsys tangent differs from the analytic one outside the sign-forcing class",
+                                       f"frame {k}: interface with {len(it_['path'])} points ({it_['kind']}), end {vm[j_]}: forsys "
+                                       f"{Af[2 * (r_ // 2):2 * (r_ // 2) + 2, c_].round(5).tolist()} analytic "
+                                       f"{A[2 * (r_ // 2):2 * (r_ // 2) + 2, c_].round(5).tolist()}; points "
+                                       f"{[[round(float(x), 4) for x in base.vertices[v]] for v in it_['path']]}", key=K_TANGENT))
+                    info["tangent_mismatch"] = True
+                    break
                 tols = recovery_tolerances(A, Af if dA <= GATE_DA else A, T)
                 info["smin"] = {k_: round(v["smin"], 5) for k_, v in tols.items()}
             with _fsenv():
@@ -883,16 +896,13 @@ def _case_b03(spec):
         if np.any(err > tol_v):
             i = int(np.argmax(err / tol_v))
             where = "first" if k == 0 else ("last (backward difference)" if last else "middle")
-            kf = bool(kf_ends) or dA > GATE_DA
+            kf = bool(kf_ends)
             name = f"tensions not recovered at the {where} frame"
             fails.append(_fail(spec, name if not kf else "tensions not recovered when an interface end is in the sign-forcing class",
                                f"{name} ({label}): interface {i}: got {g[i]:.5f} expected {e_[i]:.5f} (tolerance {tol_v[i]:.2e}); "
                                f"{int(np.sum(err > tol_v))} of {len(err)} outside; max error {err.max():.3e}; "
                                f"max |forsys tangent - analytic| {dA:.2e}; sign-forcing ends {len(kf_ends)}; times {info['times']}",
                                key=KF_SIGN if kf else None))
-    if Af_cache is not None and info.get("max_tangent_error", 0) > GATE_DA and not kf_ends:
-        fails.append(_fail(spec, "forsys tangents differ from the analytic ones outside the sign-forcing class",
-                           f"max difference {info['max_tangent_error']:.3e}"))
     dts = np.diff(S.times)
     info.update(frames=n, target=k, unknowns=E, junctions=J, solved=solved, worst_err_over_tol=round(worst, 4),
                 tol_max=tolmax, unequal_steps=bool(len(dts) > 1 and np.ptp(dts) > 1e-9 * dts.max()),
@@ -1357,8 +1367,9 @@ def _run_case(spec):
 
 def _cost(spec):
     ts = spec.get("tissue", {})
-    size = ts.get("n", 12) * (ts.get("pts", 0) + 1)
-    return size * spec.get("n", 3) * (1 + len(spec.get("ops", []))) * (1 + 2 * len(spec.get("solves", [])))
+    size = (ts.get("n", 12) if ts.get("kind") == "voronoi" else 12) * (ts.get("pts", 0) + 1)
+    lsq = 1 + 4 * sum(1 for o in spec.get("ops", []) if o.get("m") == "lsq") + 2 * sum(1 for c in spec.get("solves", []) if c.get("method") == "lsq")
+    return size * spec.get("n", 3) * (1 + len(spec.get("ops", []))) * (1 + len(spec.get("solves", []))) * lsq
 
 
 _POOL = None
@@ -1654,7 +1665,7 @@ def cases_b10(tier, seed):
                       renum=[None] * 3, vorder=[None] * 3, limit=None)
         specs.append(dict(common, ops=[dict(op="bf", t=1, al=False, fit="dlite"), dict(op="ss", t=1, m="fix_stress", b=None, ad=False)],
                           probe="fix_stress"))
-        big = dict(common, tissue=dict(kind="voronoi", n=40, seed=int(rng.integers(1000)), pts=2,
+        big = dict(common, tissue=dict(kind="voronoi", n=30, seed=int(rng.integers(1000)), pts=1,
                                        moebius=dict(strength=0.4, seed=int(rng.integers(1000)))))
         specs.append(dict(big, ops=[dict(op="bf", t=1, al=True, fit="dlite"), dict(op="ss", t=1, m="lsq", b=None, ad=False)],
                           probe="lsq_exclusion", limit_frame=1,
@@ -1744,15 +1755,17 @@ def run_b03(tier, seed):
                           "3 x (5e-4 x sum_j |pinv(K)_ij| + sum_j |pinv(K)_ij| |dA T|_j) (+1e-5 for lmfit), K = augmented "
                           "matrix [[A,1],[1,0]] (default, lsq) or its normal-equation form [[A^T A,1],[1,0]] (lsq_linear: A^T b "
                           "is what gets rounded), maximised over multiplier free / clamped at 0, dA = measured difference "
-                          "between forsys' fitted tangents and the analytic ones (gate 1e-3); non-trivial = at least one "
+                          "between forsys' fitted tangents and the analytic ones (gate 5e-3; larger outside the class = separate failure); non-trivial = at least one "
                           "configuration compared, outside the sign-forcing class")
     kf_excl = sum(1 for r in res if r["info"].get("kf_excluded"))
     kf_probe = sum(1 for r in res if r["info"].get("kf_case"))
     ratios = [r["info"].get("worst_err_over_tol", 0) for r in res if r["info"].get("nontrivial")]
+    dAs = [r["info"]["max_tangent_error"] for r in res if r["info"].get("nontrivial") and "max_tangent_error" in r["info"]]
     tols = [r["info"]["tol_max"] for r in res if r["info"].get("nontrivial")]
     out.update(configurations_compared=sum(r["info"].get("solved", 0) for r in res),
                excluded_sign_forcing_class=kf_excl, probes_inside_sign_forcing_class=kf_probe,
                worst_error_over_tolerance=max(ratios, default=0.0),
+               max_tangent_difference_in_compared_cases=max(dAs, default=None),
                tolerance_median=float(np.median(tols)) if tols else None, tolerance_max=max(tols, default=None))
     return out
 
